@@ -20,8 +20,8 @@ ENGINES = [
      "kind_free_text": "robustness: registry-driven configurations + byte mutations + random API call sequences under recover() and a watchdog"},
     {"name": "http", "path": "go/cmd/corr/httpeng.go", "serves_properties": ["C18"],
      "kind_free_text": "differential: scripted handlers behind the real net/http middleware vs the Lean interceptor model"},
-    {"name": "decode", "path": "go/cmd/corr/decode.go", "serves_properties": ["C03"],
-     "kind_free_text": "differential: query string / urlencoded body / cookies / headers through the real transaction vs Lean parsers"},
+    {"name": "decode", "path": "go/cmd/corr/decode.go", "serves_properties": ["C03", "C20"],
+     "kind_free_text": "differential: query string / urlencoded, JSON, multipart and XML bodies / cookies / headers through the real transaction vs Lean parsers and document-tree models (texts rendered by the harness's own encoders); malformed bodies judged by monitors (profile bodyerr for C20)"},
     {"name": "audit", "path": "go/cmd/corr/audit.go", "serves_properties": ["C19"],
      "kind_free_text": "differential: audit decision/contents/parts through the real serial writer vs Lean model; auditconc: concurrent writers, line integrity"},
     {"name": "memo", "path": "go/cmd/corr/memo.go", "serves_properties": ["C13"],
